@@ -8,6 +8,8 @@ import (
 	"strconv"
 	"time"
 
+	"github.com/boz/kcache"
+
 	"verifharness/kit"
 )
 
@@ -20,7 +22,7 @@ type e5desc struct {
 	Race   bool   `json:"race_mode"`
 }
 
-var e5Kinds = []string{"close", "err1", "err2", "err3", "status", "bookmark", "unknown", "nilobj", "burst1-close", "burst10-close", "burst60-close", "close-twice", "slow-connect", "dup", "status-close", "flap"}
+var e5Kinds = []string{"close", "err1", "err2", "err3", "status", "bookmark", "unknown", "nilobj", "burst1-close", "burst10-close", "burst60-close", "close-twice", "slow-connect", "dup", "status-close", "flap", "burst10-bookmark-close", "burst60-bookmark-close"}
 var e5Speeds = []string{"", "controller|update event", "watcher|session event", "watcher|session done", "watch-session|"}
 
 func e5Case(hseed uint64, pos int, kind, speed string, race bool) Case {
@@ -69,6 +71,12 @@ func e5Case(hseed uint64, pos int, kind, speed string, race bool) Case {
 		case "burst1-close", "burst10-close", "burst60-close":
 			burst = map[string]int{"burst1-close": 1, "burst10-close": 10, "burst60-close": 60}[kind]
 			f1.CloseAfter = pos + burst
+		case "burst10-bookmark-close", "burst60-bookmark-close":
+			// a burst the watcher may not have drained yet, then a bookmark for the last
+			// event sent, then the stream ends: all pending at once
+			burst = map[string]int{"burst10-bookmark-close": 10, "burst60-bookmark-close": 60}[kind]
+			f1.CloseAfter = pos + burst
+			f1.BookmarkAtClose = true
 		case "close-twice":
 			f1.CloseAfter = pos
 			f2.CloseAfter = 2
@@ -218,6 +226,108 @@ func e5Case(hseed uint64, pos int, kind, speed string, race bool) Case {
 	}}
 }
 
+
+// e5RelistRetryCase: the one place where relists and reconnects meet.  A watch
+// stream ends while a relist is in flight, so the relist completes (and resets
+// the watcher) while the reconnect delay is pending.  Much later, with the next
+// relist far away, the stream ends again: the events the server emits after
+// that must still reach the cache within the reconnect delay.
+func e5RelistRetryCase(seed uint64, n int) Case {
+	id := fmt.Sprintf("E5/relist-during-retry-delay/%d/%d", seed, n)
+	rng0 := kit.NewRng(kit.Mix(seed, uint64(n)+5500))
+	L2 := []time.Duration{100 * time.Millisecond, 400 * time.Millisecond, 800 * time.Millisecond, 950 * time.Millisecond}[n%4]
+	speed := e5Speeds[rng0.Intn(len(e5Speeds))]
+	return Case{ID: id, Desc: map[string]interface{}{"seed": seed, "n": n, "second_list_latency": L2.String(), "slow_point": speed, "what": "relist completes while the reconnect delay is pending; a later disconnect must still be followed by a reconnect"}, Bubble: true, Run: func(r *Res) {
+		rng := rng0
+		plan := &kit.Plan{Seed: rng.U64(), PYield: 100, PSleep: 20, MaxSleep: 60 * time.Microsecond}
+		if speed != "" {
+			plan.Targets = map[string]time.Duration{speed: 40 * time.Microsecond}
+		}
+		core := kit.NewCore(plan)
+		srv := kit.NewPodServer(core)
+		u := smallUniverse()
+		for i := 0; i < 4; i++ {
+			u.mutate(rng, srv)
+		}
+		P := 20 * time.Second
+		srv.ListPlan = func(i int) kit.ListFault {
+			if i == 2 {
+				return kit.ListFault{Latency: L2}
+			}
+			return kit.ListFault{}
+		}
+		srv.WatchPlan = func(i int) kit.WatchFault {
+			f := kit.NoWatchFault()
+			switch i {
+			case 1:
+				f.CloseAfter = 3 // ends right after the three events put while list #2 is in flight
+			case 2:
+				f.CloseAfter = 5 // replays those three, then ends after two more
+			}
+			return f
+		}
+		g, err := newCtlRig(core, srv, P, nil)
+		if err != nil {
+			r.Inc(err.Error())
+			return
+		}
+		defer g.shutdown(r, "C12")
+		sub, _ := g.ctl.Subscribe()
+		mir := startMirror("root-subscriber", sub.Events(), sub.Ready(), sub.Cache())
+		if !waitCh(g.ctl.Ready(), virtBound) {
+			r.V("C04", "never-ready", "controller not ready")
+			return
+		}
+		g.barrier()
+		s0, _ := cacheSnap(g.ctl.Cache())
+		mir.seed(s0)
+		// wait for list #2 to be in flight
+		for i := 0; i < 3000 && len(srv.Lists()) < 2; i++ {
+			time.Sleep(10 * time.Millisecond)
+		}
+		if len(srv.Lists()) != 2 {
+			r.Inc("list #2 not observed")
+			return
+		}
+		put := func(k int) {
+			for i := 0; i < k; i++ {
+				srv.Put(kit.Pod("n0", fmt.Sprintf("r%d", rng.Intn(3)), "", map[string]string{"l": "x"}))
+			}
+		}
+		put(3) // stream #1 ends now; the reconnect delay starts; list #2 returns L2 later
+		time.Sleep(L2 + 3*time.Second)
+		g.barrier()
+		if ws := srv.Watches(); len(ws) != 2 {
+			// the schedule this case is about was not produced (e.g. the library reconnects
+			// differently): nothing to judge
+			r.Add("relist-retry-schedule-not-produced", 1)
+			return
+		}
+		put(2) // stream #2 ends now
+		time.Sleep(200 * time.Millisecond)
+		put(3) // emitted while no stream is open
+		quiesced := time.Now()
+		time.Sleep(kcache.VerifWatchRetryDelay + 300*time.Millisecond)
+		g.barrier()
+		r.Add("relist-during-retry-cases", 1)
+		if len(srv.Lists()) > 2 {
+			r.Add("relist-intervened", 1)
+			return
+		}
+		want := kit.SnapOf(srv.Objects())
+		got, _ := cacheSnap(g.ctl.Cache())
+		if !got.Equal(want) {
+			r.V("C04", "not-converged-after-reconnect", "a relist completed while the reconnect delay of an earlier disconnect was pending; after a LATER disconnect the server emitted 3 events and went quiet: %v later (reconnect delay %v, next relist not before %v) the cache is %v, the server %v; watch calls: %s", time.Since(quiesced), kcache.VerifWatchRetryDelay, P, got, want, watchSummary(srv.Watches()))
+			return
+		}
+		r.Add("continuity-checks", 1)
+		mir.report(r, "C02")
+		r.Set("fault-kinds", "relist-during-retry-delay")
+		r.Key(id)
+		r.Sample = map[string]interface{}{"watch_calls": watchSummary(srv.Watches()), "lists": len(srv.Lists())}
+	}}
+}
+
 func watchSummary(ws []kit.WatchCall) string {
 	s := ""
 	for _, w := range ws {
@@ -250,6 +360,9 @@ func init() {
 				}
 				cases = append(cases, e5Case(hs, pos, "close", "", true))
 			}
+		}
+		for i := 0; i < tierPick(tier, 16, 600); i++ {
+			cases = append(cases, e5RelistRetryCase(seed, i))
 		}
 		return cases
 	})
